@@ -206,6 +206,28 @@ theorem affects_unmodified_silent (ctx : List FileCtx) (f : FileCtx) (b : BlockC
   unfold affectsFile
   exact List.mem_map.2 ⟨b, hb, by simp [h]⟩
 
+/-- **the affects verdict formula**: a modified block that declares `affects` yields one diagnostic for each
+    referenced (file, name) - in order, duplicates included - that has no modified block of that name -/
+theorem affects_spec (ctx : List FileCtx) (f : FileCtx) (b : BlockCtx) (a : Text) (refs : List (Option Text × Text))
+    (hb : b ∈ f.blocks) (hm : b.contentMod = true) (ha : Tag.attrGet b.block.attrs "affects".toList = some a)
+    (hp : parseAffects a = .ok refs) :
+    affectsDiags f.path b.block (refs.filter (fun r => !hasModified ctx (r.1.getD f.path) r.2)) ∈ affectsFile ctx f := by
+  unfold affectsFile
+  refine List.mem_map.2 ⟨b, hb, ?_⟩
+  simp only [hm, Bool.not_true, Bool.false_eq_true, if_false, ha, hp]
+
+/-- once every linked block is touched too, the block passes (no diagnostic, whatever its severity attribute) -/
+theorem affects_satisfied (path : Text) (b : Block) : affectsDiags path b [] = .ok [] := by
+  unfold affectsDiags
+  cases severityOf b.attrs <;> simp
+
+/-- exactly one diagnostic per missing reference, each spanning the start tag and naming the missing (file, name) -/
+theorem affects_one_per_missing (path : Text) (b : Block) (missing : List (Option Text × Text)) (sev : Nat)
+    (hs : severityOf b.attrs = .ok sev) :
+    affectsDiags path b missing = .ok (missing.map (fun r =>
+      tagDiag "affects" b sev [("affected_block_file_path", r.1.getD path), ("affected_block_name", r.2)])) := by
+  simp only [affectsDiags, hs]
+
 /-- a reference without a colon is an error (on a modified block) -/
 theorem affects_no_colon_errs (r : Text) (h : splitOnce ':' (trim r) = none) (pre post : List Text) :
     ∃ e, (pre ++ r :: post).mapM (fun r =>
